@@ -82,6 +82,23 @@ func (n *pnode) printMin(c int) string {
 		return n.kids[0].printMin(2*levPostfix) + ".f"
 	case "slice":
 		return n.kids[0].printMin(2*levPostfix) + "[" + n.kids[1].printMin(0) + ":" + n.kids[2].printMin(0) + "]"
+	case "slicex":
+		return n.kids[0].printMin(2*levPostfix) + "[" + n.slicexParts(func(k *pnode) string { return k.printMin(0) }) + "]"
+	}
+	return "?"
+}
+
+// slicexParts spells the inside of the brackets for the shapes "b:", ":e", "b:e:c", ":e:c" (n.op)
+func (n *pnode) slicexParts(pr func(*pnode) string) string {
+	switch n.op {
+	case "b:":
+		return pr(n.kids[1]) + ":"
+	case ":e":
+		return ":" + pr(n.kids[1])
+	case "b:e:c":
+		return pr(n.kids[1]) + ":" + pr(n.kids[2]) + ":" + pr(n.kids[3])
+	case ":e:c":
+		return ":" + pr(n.kids[1]) + ":" + pr(n.kids[2])
 	}
 	return "?"
 }
@@ -105,6 +122,8 @@ func (n *pnode) printFull() string {
 		return "(" + n.kids[0].printFull() + ".f)"
 	case "slice":
 		return "(" + n.kids[0].printFull() + "[" + n.kids[1].printFull() + ":" + n.kids[2].printFull() + "])"
+	case "slicex":
+		return "(" + n.kids[0].printFull() + "[" + n.slicexParts(func(k *pnode) string { return k.printFull() }) + "])"
 	}
 	return "?"
 }
@@ -140,6 +159,17 @@ func (n *pnode) want() string {
 		return "(member " + n.kids[0].want() + " f)"
 	case "slice":
 		return "(slice " + n.kids[0].want() + " " + n.kids[1].want() + " " + n.kids[2].want() + " _)"
+	case "slicex":
+		switch n.op {
+		case "b:":
+			return "(slice " + n.kids[0].want() + " " + n.kids[1].want() + " _ _)"
+		case ":e":
+			return "(slice " + n.kids[0].want() + " _ " + n.kids[1].want() + " _)"
+		case "b:e:c":
+			return "(slice " + n.kids[0].want() + " " + n.kids[1].want() + " " + n.kids[2].want() + " " + n.kids[3].want() + ")"
+		case ":e:c":
+			return "(slice " + n.kids[0].want() + " _ " + n.kids[1].want() + " " + n.kids[2].want() + ")"
+		}
 	}
 	return "?"
 }
@@ -230,7 +260,19 @@ func (g *pgen) tree(d int, binOnly bool) *pnode {
 		}
 		return &pnode{kind: "bin", op: pbinops[g.r.Intn(len(pbinops))], kids: []*pnode{g.tree(d-1, true), g.tree(d-1, true)}}
 	}
-	switch g.r.Intn(12) {
+	switch g.r.Intn(14) {
+	case 12, 13:
+		// the other slice shapes, on an identifier (its own production) or on any other base
+		op := []string{"b:", ":e", "b:e:c", ":e:c"}[g.r.Intn(4)]
+		base := g.postfixBase(d - 1)
+		if g.r.Intn(3) == 0 {
+			base = g.atom()
+		}
+		kids := []*pnode{base}
+		for i := 0; i < strings.Count(op, "b")+strings.Count(op, "e")+strings.Count(op, "c"); i++ {
+			kids = append(kids, g.tree(d-1, false))
+		}
+		return &pnode{kind: "slicex", op: op, kids: kids}
 	case 0:
 		return g.atom()
 	case 1, 2, 3, 4, 5:
